@@ -148,6 +148,15 @@ CLAIMS['C19'] = ('exploration',
                  'pairs); the p-value statement is #{null >= component size}/k. BOUNDED only: suprathreshold components and their labels (get_components), the permutation loop that fills the null distribution, '
                  'extent/intensity sizes, the end-to-end symmetry clauses (small subject sets, brute-force oracle). Level is exploration because the component and permutation logic is bounded.',
                  BND_NOTE % 'C19' + LX, 'Lean proofs over the mechanically extracted t-statistic helpers and p-value statement; brute-force oracle on small subject sets (bounded) for the rest', '5/C19')
+CLAIMS['C20'] = ('other',
+                 'Mixed: deductive (pyvc+z3, all n, all k in range, all seeds) for four generators. makerandCIJ_dir / _und: the k distinct flat positions drawn among the off-diagonal (upper-triangle) cells are set to 1: exactly k (2k '
+                 'after symmetrisation) ones, 0/1 entries, empty diagonal, symmetric (und); uses counting lemmas (an enumeration without repetition of the off-diagonal cells has n*n-n entries; k distinct cells holding 1 sum to k). '
+                 'maketoeplitzCIJ: the acceptance loop ends only with exactly k connections, the Toeplitz template has a zero diagonal so the diagonal stays empty (library contracts of toeplitz / norm.pdf / random_sample assumed). '
+                 'makeringlatticeCIJ: loop invariant of the fill loop (after pass c exactly the cells at circular distance <= c hold 1; the pass adds exactly the band at distance c, the clamp np.minimum(...,1) handling the antipodal band of even n), '
+                 'the excess is at most the size of the last band, the removal loop clears exactly `overby` distinct cells of the last band: exactly k connections, nearer bands full, farther bands empty, empty diagonal. '
+                 'BOUNDED only: makeevenCIJ, makefractalCIJ (reported count), makerandCIJdegreesfixed (degree sequences), and the parameter grids of all seven generators (n<=8, every k, seeds).',
+                 BND_NOTE % 'C20' + ' Proved part: ' + PROOF_NOTE + ' Counting lemmas are assumed in SMT and proved in Lean (section gencount); scipy/RandomState library contracts are assumed.',
+                 'pyvc + z3 + Lean-proved counting lemmas for four generators; exhaustive parameter grids (bounded) for the other three', '5/C20')
 NOT_YET = 'check not built yet in this round (see DESIGN.md section 10); no claim is made'
 
 def main():
@@ -181,9 +190,9 @@ def main():
             'add_only': True,
         },
         'engines': [
-            {'name': 'pyvc', 'path': 'engine/pyvc', 'serves_properties': ['C01', 'C02', 'C03', 'C06', 'C07', 'C11', 'C12', 'C15', 'C16', 'C17'], 'kind_free_text': 'AST -> verification conditions -> z3/cvc5 over the real source, sidecar contracts (deductive, unbounded)'},
+            {'name': 'pyvc', 'path': 'engine/pyvc', 'serves_properties': ['C01', 'C02', 'C03', 'C06', 'C07', 'C11', 'C12', 'C15', 'C16', 'C17', 'C20'], 'kind_free_text': 'AST -> verification conditions -> z3/cvc5 over the real source, sidecar contracts (deductive, unbounded)'},
             {'name': 'pyframe', 'path': 'engine/pyframe', 'serves_properties': ['C05', 'C13'], 'kind_free_text': 'static frame (mutation/alias) and effect (RNG) obligations over the real AST'},
-            {'name': 'lean', 'path': 'engine/lean', 'serves_properties': ['C01', 'C02', 'C03', 'C04', 'C06', 'C07', 'C09', 'C10', 'C11', 'C14', 'C15', 'C18', 'C19'], 'kind_free_text': 'Lean 4 + Mathlib: lemma library justifying every SMT axiom (VerifLemmas.lean) and numpy->Lean extraction of the real source with stored proofs (extract.py, ExtractedProofs.lean)'},
+            {'name': 'lean', 'path': 'engine/lean', 'serves_properties': ['C01', 'C02', 'C03', 'C04', 'C06', 'C07', 'C09', 'C10', 'C11', 'C14', 'C15', 'C18', 'C19', 'C20'], 'kind_free_text': 'Lean 4 + Mathlib: lemma library justifying every SMT axiom (VerifLemmas.lean) and numpy->Lean extraction of the real source with stored proofs (extract.py, ExtractedProofs.lean)'},
             {'name': 'weave', 'path': 'engine/weave.py', 'serves_properties': sorted(CLAIMS), 'kind_free_text': 'bounded stand-in: the same contracts executed on the real functions over exhaustive small scopes with a scripted RandomState'},
         ],
         'checks': checks,
